@@ -117,3 +117,11 @@ def short(key):
         return '%s::%s' % (last_seg(ty), rest)
     parts = k.split('::')
     return '::'.join(parts[-2:])
+
+
+WRAPPERS = {'Option', 'Box', 'Unique', 'NonNull', 'Result', 'ManuallyDrop', 'MaybeUninit'}
+
+
+def norm_chain(ch):
+    """drop index steps and std wrapper projections (Option payload, Box pointer ...)"""
+    return tuple(e for e in ch if e != IDX and e[0] not in WRAPPERS)
